@@ -3,9 +3,9 @@
    Model: Model/Transpose.v (transpose_sparse_matrix_on_disk and its parallel
    version), Model/Sparse.v (reshaping). "CSC" = the input: ptr has one entry per
    column + 1, idx holds the row of each stored entry. *)
-From Coq Require Import List Arith ZArith Bool Lia.
+From Coq Require Import List Arith ZArith Bool Lia Permutation Sorted.
 From CTM Require Import Base.Sx Model.Sparse Model.Transpose
-  Proofs.SparseP Proofs.TransposeP Proofs.TransposeFillP Proofs.TransposeSpecP Proofs.TransposePatternP Proofs.TransposeParP Proofs.SparseReshapeP.
+  Proofs.SparseP Proofs.TransposeP Proofs.TransposeFillP Proofs.TransposeSpecP Proofs.TransposePatternP Proofs.TransposeParP Proofs.SparseReshapeP Proofs.SparseSelectP.
 Import ListNotations.
 
 (* ---- count pass (_calculate_csr_indptr): for every load chunk size >= 1 the pointer
@@ -173,10 +173,27 @@ Theorem c13_copy_layer_dense : forall (d : dense) nr nc chunks out,
 Proof. exact copy_dense_exact. Qed.
 Print Assumptions c13_copy_layer_dense.
 
+(* ---- shuffle_csr_h5ad_rows (precompute_indptr + the row-by-row copy into datasets of
+   the original size): for every well-formed CSR matrix - duplicate minor indices inside
+   a row allowed - and EVERY permutation new_row_order of its rows the function returns
+   a well-formed CSR matrix with the same number of stored entries in which
+   - the stored entries of row i (indices and values, in storage order, explicit zeros
+     included) are exactly those of input row new_row_order[i]   (row_entries);
+   - hence every cell, and the dense view: row i of the output is row new_row_order[i]
+     of the input;
+   - no row stores a column twice if no input row does. *)
+Theorem c13_shuffle_rows : forall m nr nc order,
+  wf_csr m nr nc -> Permutation order (seq 0 nr) ->
+  exists out, shuffle_rows m order = Ok out /\
+    wf_csr out nr nc /\ length (idx out) = length (idx m) /\
+    (forall i, i < nr -> row_entries out i = row_entries m (nth i order 0)) /\
+    (forall i x, i < nr -> cell out i x = cell m (nth i order 0) x) /\
+    dense_of out nr nc = map (fun r => nth r (dense_of m nr nc) []) order /\
+    (no_dup_minor m -> no_dup_minor out).
+Proof. exact shuffle_rows_exact. Qed.
+Print Assumptions c13_shuffle_rows.
+
 (* NOT YET PROVED (statements kept; the correspondence check covers them by testing):
-   c13_shuffle_rows    : wf_csr m nr nc -> Permutation order (seq 0 nr) ->
-       exists out, shuffle_rows m order = Ok out /\
-       dense_of out nr nc = map (fun r => nth r (dense_of m nr nc) []) order
    c13_subset_columns  : the same for subset_columns with the sorted chosen columns
    c13_amalgamate      : amalgamate_csr pieces n = Ok out ->
        dense_of out = concatenation of the dense views of the pieces *)
@@ -244,3 +261,21 @@ Example c13_example_parallel :
   transpose_v2 c13_ex true 3 2 2 2 1 =
   Ok {| ptr := [0; 2; 2; 5]; idx := [0; 3; 0; 2; 3]; dat := [5; 8; 6; 7; 9]%Z |}.
 Proof. vm_compute. reflexivity. Qed.
+
+(* shuffle_rows: the 4 x 3 CSR reading of c13_ex (rows = its major slices) and the
+   permutation [2; 0; 3; 1] satisfy the hypotheses of c13_shuffle_rows *)
+Example c13_example_shuffle :
+  wf_csr c13_ex 4 3 /\ Permutation [2; 0; 3; 1] (seq 0 4) /\
+  shuffle_rows c13_ex [2; 0; 3; 1] =
+    Ok {| ptr := [0; 1; 3; 5; 5]; idx := [2; 0; 2; 0; 2]; dat := [7; 5; 6; 8; 9]%Z |} /\
+  dense_of c13_ex 4 3 = [[5; 0; 6]; [0; 0; 0]; [0; 0; 7]; [8; 0; 9]]%Z.
+Proof.
+  destruct c13_example_wf as (W & HP & HD & _).
+  split; [split; [exact W | split; [exact HP | exact HD]]|].
+  split.
+  - cbn [seq].
+    apply (perm_trans (l' := [0; 2; 3; 1])); [apply perm_swap|]. apply perm_skip.
+    apply (perm_trans (l' := [2; 1; 3])); [apply perm_skip, perm_swap|].
+    apply (perm_trans (l' := [1; 2; 3])); [apply perm_swap | apply Permutation_refl].
+  - vm_compute. split; reflexivity.
+Qed.
